@@ -25,18 +25,20 @@ func (r Result) String() string {
 
 // Solver wraps one long-lived solver process speaking SMT-LIB2 over a pipe.
 type Solver struct {
-	Kind    string // "z3", "z3-new", "cvc5"
-	cmd     *exec.Cmd
-	in      io.WriteCloser
-	out     *bufio.Reader
-	pr      *Printer
-	depth   int
-	Stats   Stats
-	LogTo   io.Writer // optional transcript
-	timeout int       // ms per check
-	dead    bool
-	LastErr string
-	Answers []Result // every check-sat answer in order (only recorded while LogTo is set)
+	Kind     string // "z3", "z3-new", "cvc5"
+	cmd      *exec.Cmd
+	in       io.WriteCloser
+	out      *bufio.Reader
+	pr       *Printer
+	depth    int
+	Stats    Stats
+	LogTo    io.Writer // optional transcript
+	timeout  int       // ms per check
+	dead     bool
+	LastErr  string
+	Assuming bool // use check-sat-assuming instead of push/pop per query
+	qseq     int
+	Answers  []Result // every check-sat answer in order (only recorded while LogTo is set)
 }
 
 type Stats struct {
@@ -184,11 +186,21 @@ func (s *Solver) Check(extra *Term, vars map[string]*Term, wantModel bool) (Resu
 			s.emit(v)
 		}
 	}
-	s.send("(push 1)")
-	if extra != nil {
-		s.send("(assert " + str + ")")
+	assuming := s.Assuming && extra != nil
+	if assuming {
+		// no push/pop: guard the extra constraint by a fresh literal and assume it for this query only
+		s.qseq++
+		q := fmt.Sprintf("_q%d", s.qseq)
+		s.send("(declare-const " + q + " Bool)")
+		s.send("(assert (=> " + q + " " + str + "))")
+		s.send("(check-sat-assuming (" + q + "))")
+	} else {
+		s.send("(push 1)")
+		if extra != nil {
+			s.send("(assert " + str + ")")
+		}
+		s.send("(check-sat)")
 	}
-	s.send("(check-sat)")
 	res := s.readResult()
 	var m Model
 	if res == Sat && wantModel && len(vars) > 0 {
@@ -209,7 +221,9 @@ func (s *Solver) Check(extra *Term, vars map[string]*Term, wantModel bool) (Resu
 			m = parseValues(lines[0])
 		}
 	}
-	s.send("(pop 1)")
+	if !assuming {
+		s.send("(pop 1)")
+	}
 	d := time.Since(t0)
 	if s.LogTo != nil {
 		s.Answers = append(s.Answers, res)
